@@ -588,6 +588,8 @@ X7_MX = "PyX7.MX"
 X7_DESCRIPTOR_CLASS = ("packaging.metadata", "Metadata", "_Validator")
 ORACLE_CALLS["packaging.metadata"] |= {"parse_email"}
 CONSUMERS |= {"ExceptionGroup"}          # copies the sequence into a tuple
+SELECTED += [("_get_payload", "packaging.metadata", "_get_payload")]
+X7_MESSAGE_ANN = ["email", "message", "Message"]
 # --- x7 end -----------------------------------------------------------------------------------------------------------
 
 
@@ -2368,6 +2370,15 @@ class Fn:
                 return [g[1].__name__] + [d.__name__ for d in self.ctx.subclasses(g[1])]
             if g[0] == "builtin" and e.id in ("int", "str", "list", "tuple", "bool"):
                 return [e.id]
+            if g[0] == "builtin" and e.id == "bytes":                 # x7: `obj "bytes" …` (PyElf)
+                return [e.id]
+        if isinstance(e, ast.Attribute):                              # x7: a class of another library, known by its name
+            d = _dotted(e)
+            obj = self.globals.get(d[0]) if d and d[0] not in self.locals else None
+            for part in (d or [])[1:]:
+                obj = getattr(obj, part, None)
+            if inspect.isclass(obj) and not (obj.__module__ or "").startswith("packaging"):
+                return [obj.__name__]
         raise Unsupported("class expression")
 
     def bind_args(self, pyfunc, args, kws, skip_self=False, first_is_term=None):
@@ -3998,6 +4009,22 @@ class Fn:
             return False, self.call_selected(fn, [f'(PyVal.obj "{c.__name__}" [])'] + args)
         if isinstance(f, ast.Name) and f.id == "__x7_keys" and len(e.args) == 1:
             return False, f"PyRt.dict_keys {self.val(e.args[0])}"
+        if isinstance(f, ast.Name) and f.id == "__x7_msg_del" and len(e.args) == 2:
+            self.ctx.imports.add(X7_IMPORT)
+            return False, f"PyX7.msg_del {self.val(e.args[0])} {self.val(e.args[1])}"
+        # methods of a parameter annotated `email.message.Message`
+        if isinstance(f, ast.Attribute) and isinstance(f.value, ast.Name) and f.value.id in self.x7_msg_obj_params() \
+                and f.value.id not in self.bound_stack():
+            self.ctx.imports.add(X7_IMPORT)
+            if f.attr == "get_payload" and not e.args and set(kws) <= {"decode"}:
+                d = self.val(kws["decode"]) if "decode" in kws else "(PyVal.bool false)"
+                return False, f"PyX7.msg_get_payload {self.val(f.value)} {d}"
+            raise Unsupported(f"method {f.attr} of an email Message")
+        # `b.decode("utf8", "strict")`
+        if isinstance(f, ast.Attribute) and f.attr == "decode" and len(e.args) == 2 and not kws \
+                and all(isinstance(a, ast.Constant) for a in e.args) and [a.value for a in e.args] == ["utf8", "strict"]:
+            self.ctx.imports.add(X7_IMPORT)
+            return False, f"PyX7.bytes_decode_utf8 {self.val(f.value)}"
         if cls is not None:
             if isinstance(f, ast.Name) and f.id == cls and not e.args and not kws:
                 return True, f'(PyVal.obj "{self.x7_owner.__name__}" [])'
@@ -4068,7 +4095,30 @@ class Fn:
         return None
 
     # ---- x7: exception objects, classmethods, the descriptor protocol (metadata.py)
+    def x7_msg_obj_params(self_):
+        return [a.arg for a in self_.node.args.args if isinstance(a.annotation, ast.Attribute) and _dotted(a.annotation) == X7_MESSAGE_ANN]
+
+    def x7_prepare_messages(self):
+        """`del msg[k]` on a parameter annotated `email.message.Message` rebinds the parameter (`msg = __x7_msg_del(msg, k)`); the
+        deletion is not seen by the caller (a caller that reads the message afterwards is refused, see `x7_metadata_call`)"""
+        ps = set(self.x7_msg_obj_params())
+        if not ps:
+            return
+        class Del(ast.NodeTransformer):
+            def visit_Delete(self, node):
+                if len(node.targets) == 1 and isinstance(node.targets[0], ast.Subscript) and isinstance(node.targets[0].value, ast.Name) \
+                        and node.targets[0].value.id in ps:
+                    t = node.targets[0]
+                    return ast.copy_location(ast.Assign(
+                        targets=[ast.Name(id=t.value.id, ctx=ast.Store())],
+                        value=ast.Call(func=ast.Name(id="__x7_msg_del", ctx=ast.Load()), args=[ast.Name(id=t.value.id, ctx=ast.Load()), t.slice],
+                                       keywords=[])), node)
+                return node
+        self.node = Del().visit(self.node)
+        ast.fix_missing_locations(self.node)
+
     def x7_prepare(self):
+        self.x7_prepare_messages()
         self.x7_mx = self.ctx.x7_is_mx(self.pyfunc)
         self.x7_cls, self.x7_owner, self.x7_ins, self.x7_dicts = None, self.owner, set(), set()
         if self.x7_mx:
